@@ -171,6 +171,31 @@ pub fn run(ctx: &mut Ctx) {
             ctx.add_case(coq, json!({"column": "Boolean", "request": format!("{:?}", req), "stored": v}), true);
         }
     }
+    // ---- float columns read as f32 and as f64: the same width bit for bit, `as f64` exact, `as f32` the nearest value (ties to even,
+    // subnormals, overflow to infinity); values on and next to ties of the f32 grid, every exponent range, the canonical NaN
+    {
+        let mut rng = ctx.rng.fork();
+        let n = if ctx.thorough { 6000 } else { 600 };
+        let f32s: Vec<u32> = (0..n).map(|i| { let b = rng.next_u64() as u32; match i % 6 { 0 => b & 0x807f_ffff, 1 => *rng.pick(&[0u32, 1, 0x8000_0000, 0x7f80_0000, 0xff80_0000, 0x7fc0_0000, 0x007f_ffff, 0x0080_0000, 0x7f7f_ffff, 0x3f80_0000]), _ => if f32::from_bits(b).is_nan() { 0x7fc0_0000 } else { b } } }).collect();
+        let f64s: Vec<u64> = (0..n).map(|_| crate::arrgen::gen_f64_for_f32(&mut rng)).collect();
+        let a32 = marrow::array::Array::Float32(marrow::array::PrimitiveArray { validity: None, values: f32s.iter().map(|b| f32::from_bits(*b)).collect() });
+        let a64 = marrow::array::Array::Float64(marrow::array::PrimitiveArray { validity: None, values: f64s.iter().map(|b| f64::from_bits(*b)).collect() });
+        for (col32, arr, stored) in [(true, &a32, f32s.iter().map(|b| *b as u64).collect::<Vec<u64>>()), (false, &a64, f64s.clone())] {
+            let field = mk("item", if col32 { DataType::Float32 } else { DataType::Float64 }, false);
+            let view = arr.as_view();
+            for req32 in [true, false] {
+                let got: Out<Vec<u64>> = if req32 { guarded(|| serde_arrow::from_marrow::<Vec<Item<f32>>>(std::slice::from_ref(&field), std::slice::from_ref(&view)).map(|v| v.into_iter().map(|Item(x)| x.to_bits() as u64).collect()).map_err(|e| e.to_string())) }
+                    else { guarded(|| serde_arrow::from_marrow::<Vec<Item<f64>>>(std::slice::from_ref(&field), std::slice::from_ref(&view)).map(|v| v.into_iter().map(|Item(x)| x.to_bits()).collect()).map_err(|e| e.to_string())) };
+                for (i, bits) in stored.iter().enumerate() {
+                    let impl_coq = match &got { Out::Ok(v) if v.len() == stored.len() => format!("(Ok {})", cf::z(v[i])), Out::Ok(_) => "Err".into(), Out::Err(_) => "Err".into(), Out::Panic(_) => "(Panic PExternal)".into() };
+                    let coq = format!("(CDeFloat {} {} {} {})", cf::boolean(col32), cf::boolean(req32), cf::z(*bits), impl_coq);
+                    let idx = ctx.add_case(coq, json!({"column": if col32 { "Float32" } else { "Float64" }, "request": if req32 { "f32" } else { "f64" }, "stored_bits": bits.to_string(), "read_bits": match &got { Out::Ok(v) if v.len() == stored.len() => v[i].to_string(), other => format!("{:?}", other.class()) }}), true);
+                    if !matches!(&got, Out::Ok(v) if v.len() == stored.len()) { ctx.fail(idx, "float_column_not_readable", format!("a {} column read as {}: {:?}", if col32 { "Float32" } else { "Float64" }, if req32 { "f32" } else { "f64" }, got.class())); }
+                    ctx.count(&format!("float_read:{}_as_{}", if col32 { "f32" } else { "f64" }, if req32 { "f32" } else { "f64" }));
+                }
+            }
+        }
+    }
     // ---- malformed text: never accepted, in any temporal or decimal column
     let malformed: Vec<(DataType, Vec<&str>)> = vec![
         (DataType::Decimal128(10, 2), vec!["1.50e3", "1.23abc", "-7.00 EUR", "0.129.5", "--1", "1..2", "1,5", " 1", "1 ", "+", "-", "", ".", "0x10", "1e3", "NaN", "inf", "1_000", "١٢", "1.2.3", "12a.50", "1.5x"]),
